@@ -120,7 +120,11 @@ def run_shard(shard, ctx):
         res = run_history(fe, reuse, hist)
         record(ctx, {"frontend": fe, "reuse": reuse, "history": hist}, res)
 
-    hyp.run(sm.histories(("core", "maint", "branch")), shard["n"], shard["hseed"], body, ctx)
+    strat = sm.histories(("core", "maint", "branch"))
+    if shard["i"] == 2:
+        # directed scenarios: exhaust two variables, then a constraint over both; refutable extras, then the same query without
+        strat = st.one_of(sm.scenario_exhaust_then_bridge(), sm.scenario_extras_do_not_stick())
+    hyp.run(strat, shard["n"], shard["hseed"], body, ctx)
 
 
 def shrink(case, obs, fp, matcher, deadline):
